@@ -189,6 +189,12 @@ func (cma *CmaEsChol) Init(dim, tasks int) int {
 	// Allocate memory for function data.
 	cma.xs = mat.NewDense(cma.pop, dim, nil)
 	cma.fs = resize(cma.fs, cma.pop)
+	for i := range cma.fs {
+		// Not evaluated yet. The clean-up after an early stop looks at all
+		// of fs and would take zeros (or values of a previous run) for
+		// function values of the current samples.
+		cma.fs[i] = math.NaN()
+	}
 
 	// Allocate and initialize adaptive parameters.
 	cma.invSigma = 1 / cma.InitStepSize
